@@ -28,7 +28,7 @@ PLAN = dict(
                det("dbg", H, "cs-dbg", 16, 35, 4, tso=True, time_cap=20),
                det("limiter-directed", H, "cs-rel", 6, 30, 4, tso=True, time_cap=12, args=["--limdir"]),
                det("witness-lightweight-wait-gap", H, "cs-rel", 2, 40, 4, tso=False, time_cap=20, args=["--witness"]),
-               tsan("C14", 4, 80)],
+               tsan("C14", 8, 240)],
         thorough=[det("rel", H, "cs-rel", 16, 2200, 5, tso=True, time_cap=330),
                   det("dbg", H, "cs-dbg", 16, 700, 5, tso=True, time_cap=240),
                   det("enum-wake", H, "cs-rel", 16, 40, 2, tso=True, time_cap=120, enum="wake", enum_cap=120),
